@@ -228,6 +228,8 @@ class Graph(object):
 
     # ---- running -------------------------------------------------------------------------------
     def seed_value(self, i):
+        if self.desc["nodes"][i].get("seed") == "none":
+            return None                      # a supplied value that happens to be None is still a supplied value
         return ("seed", self.nodes[i].__name__)
 
     def make_broker(self, store_skips=None, observers=True, seeds=True, extra=None):
@@ -345,12 +347,12 @@ def ref_eval(desc, names, in_graph=None):
             r.status = "outside"
             if nd.get("seed"):
                 r.present = True
-                r.value = ("seed", names[i])
+                r.value = None if nd.get("seed") == "none" else ("seed", names[i])
             continue
         if nd.get("seed"):
             r.status = "seeded"
             r.present = True
-            r.value = ("seed", names[i])
+            r.value = None if nd.get("seed") == "none" else ("seed", names[i])
             continue
         if nd.get("en", True) is False:
             r.status = "disabled"
